@@ -99,3 +99,78 @@ def full_run(blt, opts, lp=None):
     full = [(a['tag'], a['msg']) for a in E0.record()['actions']]
     fulljson = json.loads(E0.json())['actions']
     return K, full, fulljson
+
+
+# ----------------------------------------------------------------------------------------
+#  the same through the command-line driver: Droop.main(options) catches KeyboardInterrupt itself
+# ----------------------------------------------------------------------------------------
+def main_interrupted(path, opts, k, with_report=True):
+    "interrupt at the k-th line event executed under Election.count() while running Droop.main; returns (output or None, exception name)"
+    import importlib
+    Droop = importlib.import_module('Droop')
+    n = [0]
+    depth = [0]
+
+    def tr(frame, event, arg):
+        co = frame.f_code
+        if co.co_filename.startswith(PKG):
+            if co.co_name == 'count' and co.co_filename.endswith('election.py'):
+                if event == 'call':
+                    depth[0] += 1
+                elif event == 'return':
+                    depth[0] -= 1
+            if event == 'line' and depth[0] > 0:
+                n[0] += 1
+                if n[0] == k:
+                    raise KeyboardInterrupt()
+            return tr
+        return tr if co.co_filename.endswith('Droop.py') else None
+    o = dict(opts)
+    o.update(path=path, dump=True, json=True)
+    if not with_report:
+        o['report'] = False
+    out, exc = None, ''
+    sys.settrace(tr)
+    try:
+        with contextlib.redirect_stdout(io.StringIO()):
+            out = Droop.main(o)
+    except BaseException as e:
+        exc = type(e).__name__ + ': ' + str(e)[:60]
+    finally:
+        sys.settrace(None)
+    return out, exc, n[0]
+
+
+def main_record(path, blt, opts, k, full, fulljson, with_report=True):
+    out, exc, seen = main_interrupted(path, opts, k, with_report)
+    if seen < k:
+        return None                      # the count finished before the k-th event
+    X = dict(rule=opts['rule'], k=k, nfull=len(full), filled=True, report_ok=out is not None, dump_ok=out is not None, json_ok=out is not None,
+             report_exc=exc, dump_exc='', json_exc='', marker_last=False, marker_count=0, nacts=0, prefix_ok=False, banner=False,
+             json_prefix_ok=False, json_actions=0, dump_rows=0)
+    if out is None:
+        return X
+    lines = out.split('\n')
+    try:
+        di = next(i for i, l in enumerate(lines) if l.startswith('R\tAction\tQuota'))
+        ji = next(i for i, l in enumerate(lines) if l == '{' and i > di)
+    except StopIteration:
+        X['dump_ok'] = X['json_ok'] = False
+        return X
+    rep, dump, js = '\n'.join(lines[:di]), [l for l in lines[di:ji] if l], '\n'.join(lines[ji:])
+    X['banner'] = ('terminated prematurely' in rep) if with_report else True     # no report requested: nothing to mark there
+    X['dump_rows'] = len(dump)
+    try:
+        ja = json.loads(js)['actions']
+    except Exception:
+        X['json_ok'] = False
+        return X
+    acts = [(a['tag'], a['msg']) for a in ja]
+    X['marker_count'] = sum(1 for a in acts if a == ('log', MARKER))
+    X['marker_last'] = bool(acts) and acts[-1] == ('log', MARKER)
+    pre = [a for a in acts if a != ('log', MARKER)]
+    X['nacts'] = len(pre)
+    X['prefix_ok'] = pre == full[:len(pre)]
+    X['json_actions'] = len(ja)
+    X['json_prefix_ok'] = ja[:-1] == fulljson[:len(ja) - 1]
+    return X
